@@ -5,6 +5,7 @@ use crate::impl_::sodium_ctx::SodiumCtxData;
 
 use parking_lot::Mutex;
 use std::fmt;
+use std::sync::atomic::{AtomicBool, Ordering};
 use std::sync::Arc;
 
 use super::name::NodeName;
@@ -34,14 +35,23 @@ pub struct ListenerData {
     pub sodium_ctx: SodiumCtx,
     pub is_weak: bool,
     pub node_op: Option<Node>,
+    /// Cleared by `unlisten`: the listen node may already be queued for the transaction in
+    /// progress (and so be kept alive until it is visited); its handler must not run any more.
+    pub alive: Arc<AtomicBool>,
 }
 
 impl Listener {
-    pub fn new(sodium_ctx: &SodiumCtx, is_weak: bool, node: Node) -> Listener {
+    pub fn new(
+        sodium_ctx: &SodiumCtx,
+        is_weak: bool,
+        node: Node,
+        alive: Arc<AtomicBool>,
+    ) -> Listener {
         let listener_data = Arc::new(Mutex::new(ListenerData {
             sodium_ctx: sodium_ctx.clone(),
             node_op: Some(node),
             is_weak,
+            alive,
         }));
         let gc_node_desconstructor;
         {
@@ -91,6 +101,7 @@ impl Listener {
         let sodium_ctx;
         {
             let mut data = self.data.lock();
+            data.alive.store(false, Ordering::SeqCst);
             data.node_op = None;
             is_weak = data.is_weak;
             sodium_ctx = data.sodium_ctx.clone();
